@@ -122,10 +122,11 @@ def refBuiltin (b : Builtin) (arg : Value) : BuiltinRef :=
   | .floor => math1 Float.floor arg
   | .round => math1 Float.round arg
   | .ceil => math1 Float.ceil arg
-  | .isNan => pred1 (fun x => x.isNaN) arg
-  | .isFinite => pred1 (fun x => !x.isNaN && x.abs != F64.inf) arg
-  | .isInfinite => pred1 (fun x => x.abs == F64.inf) arg
-  | .isNormal => pred1 (fun x => !x.isNaN && x.abs != F64.inf && x.abs ≥ Float.ofBits 0x0010000000000000) arg
+  -- the IEEE-754 classes, read off the bit pattern (std's `f64::is_*`, modelled in Model/F64)
+  | .isNan => pred1 F64.isNaN arg
+  | .isFinite => pred1 F64.isFinite arg
+  | .isInfinite => pred1 F64.isInfinite arg
+  | .isNormal => pred1 F64.isNormal arg
   | .abs =>
     match arg with
     | .float f => .value (.float f.abs)
@@ -174,5 +175,20 @@ def refBuiltin (b : Builtin) (arg : Value) : BuiltinRef :=
   | .bitnot => match arg with | .int a => .value (.int (~~~a)) | _ => .error
   | .shl => int2 shlRef arg
   | .shr => int2 shrRef arg
+
+/-- the language's own `<=` on numbers: integers exactly, otherwise after promotion to double -/
+def numLe : Value → Value → Bool
+  | .int a, .int b => a.toInt ≤ b.toInt
+  | a, b => match num? a, num? b with
+    | some x, some y => x ≤ y
+    | _, _ => false
+
+/-- a builtin's result meets the documented outcome -/
+def MeetsB (r : Res Value) : BuiltinRef → Prop
+  | .value v => r = .ok v
+  | .error => ∃ e, r = .error e ∧ e.isPanic = false
+  | .any => ∀ e, r = .error e → e.isPanic = false
+  | .smallestOf args => ∃ v, r = .ok v ∧ v ∈ args ∧ ∀ a ∈ args, numLe v a = true
+  | .largestOf args => ∃ v, r = .ok v ∧ v ∈ args ∧ ∀ a ∈ args, numLe a v = true
 
 end Evalexpr.Spec
